@@ -246,6 +246,14 @@ var (
 		oPat(PatSpec{Scheme: "https", Subs: true, Host: "foo.kawasaki.jp", Port: portAny}, false, true),
 		oPat(PatSpec{Scheme: "https", Subs: true, Host: "foo.kawasaki.jp.", Port: 8443}, false, true),
 		oPat(PatSpec{Scheme: "https", Subs: true, Host: "foo.ck"}, false, true),
+		// internationalised public suffixes of two labels, in the A-label form that patterns must use, and private-section
+		// suffixes nested under a registrable domain (lesson of seeded changes C04-q, C08-q)
+		oPat(PatSpec{Scheme: "https", Subs: true, Host: "xn--55qx5d.cn"}, false, true),
+		oPat(PatSpec{Scheme: "https", Subs: true, Host: "xn--55qx5d.cn.", Port: 8443}, false, true),
+		oPat(PatSpec{Scheme: "https", Subs: true, Host: "xn--od0alg.hk"}, false, true),
+		oPat(PatSpec{Scheme: "https", Subs: true, Host: "xn--12c1fe0br.xn--o3cw4h", Port: portAny}, false, true),
+		oPat(PatSpec{Scheme: "https", Subs: true, Host: "xn--p1ai"}, false, true),
+		oPat(PatSpec{Scheme: "https", Subs: true, Host: "s3.amazonaws.com"}, false, true),
 	}
 	// contextOriginAtoms are used only as neighbours of other atoms and only in configurations that set
 	// DangerouslyTolerateSubdomainsOfPublicSuffixes (their own public-suffix status is then immaterial): subdomains of
